@@ -11,13 +11,18 @@ spec         : specs/Resolver.tla, section "C16": UpgradeOk (the target is satis
                Deterministic: two resolutions of identical inputs (fresh objects; the resolutions of all
                the other worlds of the batch lie between them, so nothing may leak from one resolver
                instance to the next) give the same answer and the same operations; a further set of worlds is resolved once in this
-               process (after many other resolutions) and once in a fresh interpreter with another
-               PYTHONHASHSEED, in reversed order.
+               process (after many other resolutions) and in two fresh interpreters with other
+               PYTHONHASHSEEDs, in reversed order (hash-order dependence shows only across processes).
+               Sessions: every request is resolved as pmerge --ignore-failures does (add_atoms, on failure
+               drop the failed target, reset(), add_atoms again) and, with several targets, one add_atoms
+               per target on one instance; the answer must equal a fresh instance's answer to the final
+               request, and a READY first candidate (everything it needs is already in the plan) must be
+               taken: clauses Upgrade_ready / Reuse_ready, judged outside Robust as well.
 MC           : Resolver_MC (shared with C15): RobustNeverFails / RobustPolicy - in the
                Robust domain no order of work of the reference resolver fails or misses the policy.
 spec -> code : exported bounded family;  code -> spec: seeded random worlds (robust style weighted).
-Judge        : Resolver_Trace (clauses Upgrade_failed, Upgrade_highest, Reuse_failed, Reuse_installed,
-               Deterministic).
+Judge        : Resolver_Trace (clauses Upgrade_failed, Upgrade_highest, Upgrade_ready, Reuse_failed,
+               Reuse_installed, Reuse_ready, Deterministic).
 """
 import json
 import os
@@ -45,24 +50,26 @@ def other_process_ops(worlds_kinds, hashseed):
     return json.loads(p.stdout)
 
 
-def cross_process_determinism(ck, n_worlds, batch):
+def cross_process_determinism(ck, n_worlds, batch, worlds=()):
     """identical inputs, different surroundings: resolved here (in a process that has already done
-    many other resolutions) and in a fresh interpreter with another hash seed, in reversed order"""
+    many other resolutions) and in fresh interpreters with other hash seeds, in reversed order.
+    worlds: further worlds to include (the special parts of the exported family)"""
     r_ = rng(1616)
-    pairs = []
+    todo = list(worlds)
     for n in range(n_worlds):
-        w = c15.gen_world(r_, c15.STYLES[n % len(c15.STYLES)])
-        for kind in c15.KINDS:
-            pairs.append((w, kind))
+        todo.append(c15.gen_world(r_, c15.STYLES[n % len(c15.STYLES)]))
+    pairs = [(w, kind) for w in todo for kind in c15.KINDS]
     a = [c15.run_once(w, kind, record=False) for w, kind in pairs]
-    b = list(reversed(other_process_ops(list(reversed(pairs)), 7)))
-    for (w, kind), o1, o2 in zip(pairs, a, b):
-        tid = len(batch.cases)
-        batch.events.append(dict(tid=tid, i=0, ev="resolve", kind=kind, pkgs=c15.world_event(w), targets=w["targets"],
-                                 raised=o1["raised"], exc=o1["exc"], ok=o1["ok"], ops=o1["ops"],
-                                 raised2=o2["raised"], exc2=o2["exc"], ok2=o2["ok"], ops2=o2["ops"]))
-        batch.cases.append(dict(world=w, kind=kind, o1=o1))
-        ck.count()
+    for hashseed in (7, 3):
+        b = list(reversed(other_process_ops(list(reversed(pairs)), hashseed)))
+        for (w, kind), o1, o2 in zip(pairs, a, b):
+            tid = len(batch.cases)
+            batch.events.append(dict(tid=tid, i=0, ev="resolve", kind=kind, mode="plain", pkgs=c15.world_event(w),
+                                     targets=w["targets"], raised=o1["raised"], exc=o1["exc"], ok=o1["ok"], ops=o1["ops"],
+                                     done=o1["done"], marks=o1["marks"],
+                                     raised2=o2["raised"], exc2=o2["exc"], ok2=o2["ok"], ops2=o2["ops"]))
+            batch.cases.append(dict(world=w, kind=kind, mode="plain", o1=o1))
+            ck.count()
 
 
 def run(ck):
@@ -80,7 +87,8 @@ def run(ck):
     c15.model_check(ck)
     stats = c15.campaign(ck, want, plan_trace=False, sizes=ck.pick((60, 120, 100000), (3000, 4000, 4000)),
                          styles=("robust", "friendly", "robust", "hostile", "blocky"), seed=16,
-                         tail=lambda batch: cross_process_determinism(ck, ck.pick(30, 600), batch))
+                         tail=lambda batch: cross_process_determinism(
+                             ck, ck.pick(24, 500), batch, [w for w in c15.SPECIAL_WORLDS if w.get("fam") == "session"]))
     ck.extra["runs"] = stats
     ck.extra["policy_clauses_judged"] = stats["judged"]
     if stats["judged"] == 0 and not ck.violations and stats["crashed"] == 0:
